@@ -377,6 +377,7 @@ class Ctx:
         # (./check SRC: the reference semantics' own validation) write to evidence-aux/
         import re as _re
         edir = "evidence" if _re.fullmatch(r"C\d\d", self.prop) else "evidence-aux"
+        edir = os.environ.get("SAMVERIF_EVIDENCE_DIR") or edir      # vlib/try_seed.sh: seeded-tree runs
         os.makedirs(os.path.join(VERIF, edir), exist_ok=True)
         json.dump(ev, open(os.path.join(VERIF, edir, f"{self.prop}.json"), "w"), indent=1, default=str)
         for l in self.known_lines:
